@@ -26,6 +26,14 @@ if [ $? -ne 0 ] || [ ! -x target/release/vcheck ]; then
   tail -n 40 "$LOG"
   exit 2
 fi
+# C18 also drives the lite-block route of saito-rust through a separate binary (it links saito-rust
+# with its web server). If that crate does not build the route part is skipped and recorded as such.
+if [ "$ID" = "C18" ]; then
+  (
+    flock 9
+    cd "$HERE/route" && CARGO_TARGET_DIR="$HERE/route/target" cargo build --release >"$HERE/harness/target/build_route.log" 2>&1
+  ) 9>"$HERE/harness/target/.build_route.lock" || echo "note: route crate did not build (see harness/target/build_route.log); route sub-check skipped"
+fi
 BIN="$HERE/harness/target/release/vcheck"
 case "$MODE" in
   quick)    WD=1500; ARGS=(run "$ID" --tier quick --seed "$VERIF_SEED") ;;
